@@ -418,7 +418,9 @@ def r4_samplers(check, prog):
                                 opaque=[P + 'Gaussian.sample'])
     loc = prog.loc(owner, fd)
     loops = [l for l in it.loops.values() if l['func'].endswith('BoundedGaussian.sample')]
-    check.floor('rejection loops in BoundedGaussian.sample', len(loops), 1)
+    check.need('rejection loops in BoundedGaussian.sample', len(loops), 1,
+               'R4-rejection-loop', 'BoundedGaussian.sample loop',
+               'draws outside the bounds are redrawn in a loop', loc)
     if not loops:
         return
     lp = loops[0]
